@@ -63,6 +63,10 @@ pub struct BusState {
     pub hello_done: bool,
     /// bytes written right before / right after the reply to the next GetNameOwner
     pub lookup_script: Option<(Vec<u8>, Vec<u8>)>,
+    /// how many of the next AddMatch calls the bus refuses (as a bus out of match-rule quota does)
+    pub refuse_adds: u32,
+    /// rules whose AddMatch was refused
+    pub refused: Vec<String>,
 }
 
 pub type Bus = Arc<Mutex<BusState>>;
@@ -212,6 +216,15 @@ pub async fn run_bus(w: World, raw: RawEnd, bus: Bus, cfg: BusCfg) {
                 out.extend(ret(&[Val::str(ME)]).encode());
                 out.extend(driver_signal(&bus, "NameAcquired", &[Val::str(ME)], true).encode());
                 out.extend_from_slice(&cfg.after_hello);
+            }
+            "AddMatch" if bus.lock().unwrap().refuse_adds > 0 => {
+                let mut b = bus.lock().unwrap();
+                b.refuse_adds -= 1;
+                b.refused.push(s0.clone());
+                drop(b);
+                w.count("fault.bus_refuses_add_match");
+                w.log(|| format!("bus: AddMatch {s0} REFUSED"));
+                out.extend(err("org.freedesktop.DBus.Error.LimitsExceeded", "too many match rules").encode());
             }
             "AddMatch" => {
                 let step = w.steps();
